@@ -285,6 +285,23 @@ impl<G: AffineRepr> Ctx<G> {
         let k = self.lc_count.get();
         self.lc_count.set(k + 1);
         let style = (k + if self.is_prover { 0 } else { self.lc_shift.get() }) % 8;
+        // now and then a term over `Variable::Phantom` (a public variant that stands for no
+        // wire: it carries no weight on either role) at the front, inside or at the end
+        let phantom: Option<(usize, Fr<G>)> = if k % 9 == 4 { Some(((k / 9) % (terms.len() + 1), Fr::<G>::from(3 + k as u64))) } else { None };
+        let with_phantom = |lc: LinearCombination<Fr<G>>| -> LinearCombination<Fr<G>> {
+            match phantom {
+                Some((_, c)) if k % 2 == 0 => lc + Variable::Phantom(std::marker::PhantomData) * c,
+                _ => lc,
+            }
+        };
+        if let Some((at, c)) = phantom {
+            if k % 2 == 1 {
+                // spliced into the term list itself
+                let mut v: Vec<(Variable<Fr<G>>, Fr<G>)> = terms.iter().map(|(v, c)| (self.real(v), *c)).collect();
+                v.insert(at, (Variable::Phantom(std::marker::PhantomData), c));
+                return v.into_iter().collect();
+            }
+        }
         let term = |v: &Var, c: Fr<G>| -> LinearCombination<Fr<G>> {
             if matches!(v, Var::One) && k % 2 == 0 {
                 LinearCombination::from(c)
@@ -292,7 +309,7 @@ impl<G: AffineRepr> Ctx<G> {
                 self.real(v) * c
             }
         };
-        match style {
+        with_phantom(match style {
             1 => terms.iter().fold(LinearCombination::default(), |acc, (v, c)| acc + term(v, *c)),
             2 => terms.iter().fold(LinearCombination::default(), |acc, (v, c)| acc - term(v, -*c)),
             3 => {
@@ -331,7 +348,7 @@ impl<G: AffineRepr> Ctx<G> {
                 }
             }
             _ => terms.iter().map(|(v, c)| (self.real(v), *c)).collect(),
-        }
+        })
     }
     fn record(&self, what: &'static str, ret: &[Variable<Fr<G>>], exp: &[Var], len_real: usize) {
         let m = self.model.borrow();
